@@ -62,7 +62,7 @@ def gen_case(seed, idx):
             "copy_outside": rng.choice([None, None, "abs", "rel_existing"]), "two_src": rng.random() < 0.3, "page_symlink": rng.random() < 0.35,
             "media": rng.choice([None, "ok", "missing"]), "css": rng.random() < 0.4,
             "favicon": rng.random() < 0.3, "mathjax": rng.random() < 0.3, "extra_ft": rng.random() < 0.3,
-            "graph_dir": rng.choice([None, "in", "out", "out_abs"]) if opts["graph"] else None,
+            "graph_dir": rng.choice([None, "in", "out", "out_abs", "holds_inputs"]) if opts["graph"] else None,
             "parallel": rng.choice([0, 0, 2]) if opts["graph"] else 0}
     return case
 
@@ -166,6 +166,14 @@ def build(case, seed, root):
     elif gd == "out_abs":
         opts["graph_dir"] = root + "/outs/graphs_abs"
         allowed.append(root + "/outs/graphs_abs")
+    elif gd == "holds_inputs":
+        # the graph directory is a directory the user also keeps other things in: FORD may add its graph
+        # files there, but what is already there must stay byte-identical
+        opts["graph_dir"] = "./figures"
+        files["proj/figures/logo.svg"] = "<svg>user's own figure</svg>\n"
+        files["proj/figures/notes.txt"] = "kept with the figures\n"
+        files["proj/figures/raw/data.csv"] = "1,2\n"
+        allowed.append(P + "/figures")
     if case.get("parallel"):
         opts["parallel"] = case["parallel"]
     if case.get("pages"):
@@ -390,11 +398,20 @@ def run_once(case, seed, workdir, faults, pool_seed=1):
     files, argv, cwd, allowed, out, srcdirs = build(case, seed, root)
     O.materialise(files, root)
     before = O.snapshot(root, exclude=[] if case["refusal"] else [os.path.realpath(a) for a in allowed])
+    pre_graph = None
+    if case.get("graph_dir") == "holds_inputs" and not case["refusal"]:
+        pre_graph = O.snapshot(os.path.join(root, "proj", "figures"), meta=False)
     spec = {"sandbox": root, "cwd": cwd, "argv": argv, "mode": "full", "order_plan": {"mode": "sorted"},
             "dir_order": "sorted", "clock": {"seed": 0}, "faults": faults,
             "pool": {"sim": True, "seed": pool_seed}}
     r = O.run_cold(spec, os.path.join(workdir, "work"), hashseed=0, timeout=180)
     findings, n_mut = check_run(case, root, allowed, before, r, case["refusal"])
+    if pre_graph is not None:
+        post = O.snapshot(os.path.join(root, "proj", "figures"), meta=False)
+        for rel, v in sorted(pre_graph.items()):
+            if post.get(rel) != v:
+                findings.append(("escape/graph-dir-preexisting/%s" % ("deleted" if rel not in post else "modified"),
+                                 "figures/%s was in the graph directory before the run and was %s by it" % (rel, "deleted" if rel not in post else "modified")))
     return r, findings, n_mut, (root, allowed, srcdirs)
 
 
